@@ -77,6 +77,34 @@ CHECKS = {
                      "every post-state is compared with an executable model.",
                 note="Trusted: the model in c19.py; single-threaded requests.",
                 ref="DESIGN.md §3 C19"),
+    "C05": dict(cat="exploration", tech="runtime monitor: call-log counting model on a harness-defined objective + field oracles (sign, rounding, marker) + taps on generator output and the scalar-optimiser bridge",
+                text="Mixed batches (serial and threaded), sweeps with every generator and SciPy/NLopt runs are observed at the client "
+                     "boundary: the objective's call log must contain exactly one call per not-yet-evaluated design with its stored "
+                     "vector, fields must satisfy the sign/rounding/marker rules, every optimiser query must be recorded with its true cost.",
+                note="Trusted: LoggingProblem call log (under a lock); IN_PROGRESS/FAILED designs out of scope.",
+                ref="DESIGN.md §3 C05"),
+    "C06": dict(cat="fault_enumeration", tech="fault injection: enumerated failure scripts at the objective boundary, executable reference model of the retry loop",
+                text="Every single-design script of 0..5 transient failures x exception types, every non-transient type at every attempt, "
+                     "(thorough) every two-design combination and threaded batches are injected through the harness objective; caller-"
+                     "visible exception, failed list, attempts, replacement vectors and final records are compared with the model.",
+                note="Trusted: the model in c06.py; exception subclasses not generated.",
+                ref="DESIGN.md §3 C06"),
+    "C08": dict(cat="exploration", tech="runtime monitor: box-membership oracle on operator outputs, generator outputs and every vector reaching the objective, under a hostile RNG",
+                text="Operators are driven with boundary/coincident/almost-coincident parents over extreme boxes while random() returns "
+                     "edge values; all generators; full runs of the five algorithms with an objective-side box monitor.",
+                note="Tolerance rule from the statement (0 / 1e-12+4ulp / precision/2); aborted runs are counted, not judged.",
+                ref="DESIGN.md §3 C08"),
+    "C09": dict(cat="exploration", tech="runtime monitor: counting rules over populations() and the objective call log, oracle-dominance elitism check, pop_acceptance step model",
+                text="Runs over (algorithm, N, G, n, m, seed) with and without injected transient failures are checked for exact tags, "
+                     "sizes, budget, distinctness and NSGA-II elitism; every pop_acceptance step (direct and inside eps-MOEA) against "
+                     "the three-way replacement rule.",
+                note="Trusted: oracle dominance; failure rate <= 0.2, never five in a row.",
+                ref="DESIGN.md §3 C09"),
+    "C14": dict(cat="exploration", tech="runtime monitor: re-checking oracle over all earlier designs after every batch (neighbour set, call counts, sensitivity sum, forward difference)",
+                text="Batch histories and real runs with the worst-case and gradient evaluators; after every batch every design "
+                     "evaluated so far is re-validated, which is what exposes state leaking across batches.",
+                note="Trusted: recomputation with the harness objective; batches of fresh designs.",
+                ref="DESIGN.md §3 C14"),
 }
 
 NOT_BUILT = "check not built yet in this session (design in DESIGN.md §3); not claimed until its monitor exists"
